@@ -42,6 +42,8 @@ pub enum ASpec {
     Expr(RefExpr),
     /// the shipped, deserialised JWT automaton
     Jwt,
+    /// a library of several automata (keys 0..n); the word is parsed with automaton `.1`
+    Multi(Vec<RefExpr>, usize),
 }
 
 pub const VAR_M: usize = 32;
@@ -121,6 +123,7 @@ impl Circuit<F> for HCircuit {
             ASpec::None => None,
             ASpec::Expr(e) => Some(AutomatonChip::<usize, F>::configure(meta, &(cols, std::iter::once((0usize, e.to_regex().to_automaton())).collect()))),
             ASpec::Jwt => Some(AutomatonChip::<usize, F>::configure(meta, &(cols, spec_library().into_iter().map(|(_, a)| (0usize, a)).collect()))),
+            ASpec::Multi(es, _) => Some(AutomatonChip::<usize, F>::configure(meta, &(cols, es.iter().enumerate().map(|(i, e)| (i, e.to_regex().to_automaton())).collect()))),
         };
         HConfig { dec, b64, aut }
     }
@@ -141,7 +144,11 @@ impl Circuit<F> for HCircuit {
                 for b in &input {
                     ng.constrain_as_public_input(l, b)?;
                 }
-                let markers = chip.parse(l, &0usize, &input)?;
+                let which = match &self.spec {
+                    ASpec::Multi(_, w) => *w,
+                    _ => 0usize,
+                };
+                let markers = chip.parse(l, &which, &input)?;
                 for m in &markers {
                     observe(m);
                     ng.constrain_as_public_input(l, m)?;
